@@ -65,7 +65,9 @@ ANCHORS = ["openfisca_core/tools/simulation_dumper.py", "openfisca_core/data_sto
 RULE = ("stream 'eng' (5 of 6 cases): random rule systems of harness/rules.py (3-8 variables, every definition period "
         "incl. eternity / week / weekday, int / float / bool, dated formulas, ADD / DIVIDE, group aggregations with "
         "roles), with or without the group entity (persons-only), populations with arbitrary distinct person and "
-        "group ids, interleaved memberships, roles, member-less groups (often trailing), optionally every array on "
+        "group ids, interleaved memberships, roles, member-less groups (often trailing), for half of the group "
+        "populations members_position set explicitly to a within-group permutation that differs from the order of "
+        "appearance (value_nth_person / value_from_first_person / get_rank compared original vs restored), optionally every array on "
         "disk; inputs (incl. rolling years, every month, odd days) and calculations, then dump_simulation / "
         "restore_simulation in a scratch directory (the same dump is restored four times in all, with deletion / "
         "gc.collect() of restored simulations in between, each compared with the original, and the directory's file "
@@ -161,6 +163,38 @@ def _extra_inputs(rng, sys, pop, year):
     return out
 
 
+def default_positions(ids):
+    seen, out = {}, []
+    for g in ids:
+        out.append(seen.get(g, 0))
+        seen[g] = seen.get(g, 0) + 1
+    return out
+
+
+def explicit_positions(rng, ids):
+    """members_position as a situation with explicit positions (a survey loader) sets it: within
+    every group a permutation of 0..size-1 that is NOT the order of appearance; None when no
+    group has two members"""
+    members = {}
+    for i, g in enumerate(ids):
+        members.setdefault(g, []).append(i)
+    if all(len(m) < 2 for m in members.values()):
+        return None
+    for _ in range(20):
+        out = [0] * len(ids)
+        for g, m in members.items():
+            perm = list(range(len(m)))
+            rng.shuffle(perm)
+            for i, q in zip(m, perm):
+                out[i] = q
+        if out != default_positions(ids):
+            return out
+    big = max(members.values(), key=len)
+    out = default_positions(ids)
+    out[big[0]], out[big[1]] = out[big[1]], out[big[0]]
+    return out
+
+
 def gen_eng(rng, k):
     profile = CYCLE_PROFILE if k % 9 == 8 else PROFILE
     sys = rules.gen_system(rng, profile)
@@ -178,6 +212,7 @@ def gen_eng(rng, k):
         elif r < 0.45 and pop["count"] > 1:
             # first group without members
             pop["ids"] = [i if i != 0 else pop["count"] - 1 for i in pop["ids"]]
+    pop["positions"] = None if persons_only or rng.random() < 0.5 else explicit_positions(rng, pop["ids"])
     n = len(pop["ids"])
     pop["pids"] = rng.sample(range(0, 40), n)
     pop["gids"] = rng.sample(range(0, 40), pop["count"])
@@ -238,6 +273,8 @@ def build_sim(tbs, pop, cfg, sys, persons_only):
         ent = hp.entity
         roles = {k: [x for x in ent.roles if x.key == rules.ROLE_KEYS[k]][0] for k in range(len(rules.ROLE_KEYS))}
         hp.members_role = numpy.array([roles[r] for r in pop["roles"]], dtype=object)
+        if pop.get("positions") is not None:
+            hp.members_position = numpy.array(pop["positions"], dtype=numpy.int64)
     sim = sb.build(tbs)
     sim.max_spiral_loops = sys.get("max_loops", 1)
     if (cfg or {}).get("disk"):
@@ -330,6 +367,18 @@ def snapshot(sim):
                                  for r in pop.members_role]
             e["members_role_is_role"] = [type(r).__name__ for r in pop.members_role]
             e["members_position"] = [int(x) for x in pop.members_position]
+            # what positions are for: the position-dependent primitives
+            probe = numpy.arange(len(e["members_entity_id"])) * 10 + 7
+            crit = (numpy.arange(len(e["members_entity_id"])) * 7) % 5
+            for label, f in (("value_nth_person_0", lambda: pop.value_nth_person(0, probe, -1)),
+                             ("value_nth_person_1", lambda: pop.value_nth_person(1, probe, -1)),
+                             ("value_nth_person_2", lambda: pop.value_nth_person(2, probe, -1)),
+                             ("value_from_first_person", lambda: pop.value_from_first_person(probe)),
+                             ("get_rank", lambda: pop.members.get_rank(pop, crit))):
+                try:
+                    e[label] = [int(x) for x in f()]
+                except Exception as ex:  # noqa: BLE001
+                    e[label] = f"{type(ex).__name__}"
         out["entities"][key] = e
     return out
 
@@ -663,7 +712,8 @@ def gen_group(rng, n, roles, single_first):
         r = rng.choice(choices)
         seen[(g, r)] = True
         rs.append(r)
-    return {"count": count, "ids": ids, "roles": rs}
+    return {"count": count, "ids": ids, "roles": rs,
+            "positions": explicit_positions(rng, ids) if rng.random() < 0.5 else None}
 
 
 def gen_rich(rng, k):
@@ -723,6 +773,8 @@ def run_rich(case):
             gp.members_entity_id = numpy.array(g["ids"], dtype=numpy.int64)
             by_key = {r.key: r for r in gp.entity.flattened_roles}
             gp.members_role = numpy.array([by_key[names[r]] for r in g["roles"]], dtype=object)
+            if g.get("positions") is not None:
+                gp.members_position = numpy.array(g["positions"], dtype=numpy.int64)
         sim = sb.build(tbs)
         if case["cfg"].get("disk"):
             sim.memory_config = MemoryConfig(max_memory_occupation=0)
@@ -761,6 +813,7 @@ def coq_case(case):
     hg = "false" if case["persons_only"] else "true"
     return (f"(CDump {rules.csys(case['sys'], {})} {hg} {rules.cnat(pop['count'])} {nats(pop['ids'])} "
             f"{nats(pop['roles'])} {nats(pop['pids'])} {nats(pop['gids'])} "
+            f"{'None' if pop.get('positions') is None else '(Some ' + nats(pop['positions']) + ')'} "
             f"{'true' if case.get('dirty') else 'false'} {reqs(case['requests'])} {reqs(case['later'])})")
 
 
@@ -854,6 +907,8 @@ def classify(case, obs):
             tags.append("trailing-empty")
         elif len(used) < pop["count"]:
             tags.append("inner-empty")
+    if pop.get("positions") is not None:
+        tags.append("explicit-positions")
     if case["cfg"].get("disk"):
         tags.append("disk")
     units = {rules.UNITS[e[0][1]] for e in obs.get("cache_rest") or []}
